@@ -1,6 +1,7 @@
 import PycommModel.OpsPath
 import PycommModel.Logix.Kernels
 import PycommModel.Logix.Client
+import PycommModel.Logix.Upload
 namespace Pycomm
 open Sexp Lgx.K
 
@@ -167,6 +168,39 @@ def opKReadReply : List Sexp → String
               | .ok v => "ok " ++ v.toSexp.render
               | .error e => "err " ++ e.render
       | _, _, _, _ => "bad-args"
+  | _ => "bad-args"
+
+/-! ### upload parsing (Logix/Upload.lean) -/
+
+def renderName (n : Name) : String := "(s" ++ String.join (n.map fun c => " " ++ toString c) ++ ")"
+
+/-- k.records T|F (b data) -/
+def opKRecords : List Sexp → String
+  | [w, d] =>
+      match bool? w, Sexp.bytes? d with
+      | some w', some bs =>
+          match Lgx.Up.parseRecords w' (bs.length + 1) bs with
+          | .error e => "err " ++ e.render
+          | .ok rs => "ok (" ++ " ".intercalate (rs.map fun r =>
+              s!"({r.inst} {renderName r.name} {r.symbolType} {r.addr} {r.objAddr} {r.swc} {renderNats r.dims} " ++
+              (match r.access with | some a => toString a | none => "N") ++ ")") ++ ")"
+      | _, _ => "bad-args"
+  | _ => "bad-args"
+
+/-- k.template count symbolType (b data) -/
+def opKTemplate : List Sexp → String
+  | [c, t, d] =>
+      match Sexp.toNat? c, Sexp.toNat? t, Sexp.bytes? d with
+      | some c', some t', some bs =>
+          match Lgx.Up.parseTemplate c' t' bs with
+          | .error e => "err " ++ e.render
+          | .ok pt =>
+              "ok " ++ (match pt.name with | some n => renderName n | none => "N") ++ " (" ++
+              " ".intercalate (pt.members.map fun m =>
+                s!"({renderName m.name} {m.info} {m.typ} {m.offset} {renderBool m.priv})") ++ ") (" ++
+              " ".intercalate (pt.attributes.map renderName) ++ ") " ++
+              (match pt.string with | some n => toString n | none => "N")
+      | _, _, _ => "bad-args"
   | _ => "bad-args"
 
 end Pycomm
